@@ -7,6 +7,10 @@ the attribute docstrings) says what the written JSON must contain and what a
 reader must observe, with the documented normalisations applied explicitly.
 A field that writer and reader drop symmetrically shows up twice: it is
 missing in the parsed text (M1) and the re-read attribute differs from D (M3).
+
+Later additions: M6 - the re-read object is edited (path entries / leaf children / the label removed, values set)
+and written again: read back as the edited description and byte-identical to a freshly built object of that content;
+a write attempted before the compose id was assigned; Compose(dir).info as a further entry point.
 """
 import json
 import os
